@@ -18,7 +18,8 @@ class StopRun(BaseException):
 
 
 class Stats:
-    def __init__(self):
+    def __init__(self, known=()):
+        self.known = set(known)
         self.evals = 0
         self.status = {}
         self.labels = {}
@@ -29,7 +30,8 @@ class Stats:
 
     def record(self, case, r):
         self.evals += 1
-        self.status[r.status] = self.status.get(r.status, 0) + 1
+        skey = "known_finding" if r.status == "violation" and r.sig in self.known else r.status
+        self.status[skey] = self.status.get(skey, 0) + 1
         for lb in r.labels:
             self.labels[lb] = self.labels.get(lb, 0) + 1
         if r.nontrivial and r.status in ("ok", "violation"):
@@ -132,7 +134,7 @@ def run(job):
     out = {"job": job, "error": None}
     try:
         mod = load_property(job["pid"])
-        stats = Stats()
+        stats = Stats(job.get("known_sigs", ()))
         if job["kind"] == "shrink":
             comp = {c.name: c for c in mod.COMPONENTS}[job["component"]]
             out["shrink"] = shrink(comp, job["n"], job["seed"], job["sig"], job["shrink_budget_s"], None)
